@@ -448,6 +448,7 @@ Plan gen_model(uint64_t seed, const string &prop) {
   // compaction cuts its output inside that key)
   int style_draw = (int)r.below(20);
   int style = style_draw < 12 ? 0 : style_draw < 18 ? 1 : 2;
+  if (p.cfg.cmp == 3 && r.chance(0.3)) style = 2; // a comparator that equates spellings + one key's versions cut across files: boundary-file handling must use the comparator
   if (g_light && style == 2) style = 1;
   p.seti("style", style);
   size_t win_base = 0, win_width = (size_t)r.range(2, 6);
